@@ -288,32 +288,6 @@ Proof.
   - exact Hv.
 Qed.
 
-(* the span comparer, independent spanning vectors, ANY number of them: full statement *)
-Theorem span_iff_independent tl ws v : tol_ok tl = true ->
-  (forall w, In w ws -> length w = length v) -> crank ws = length ws ->
-  (span_accept tl ws v <->
-   norm_le tl 0 (norm2 v) = false /\ tol_ok tl = true /\
-   exists cs : list C, dist2 v (lincomb cs ws) <= tol2 tl (norm2 v)).
-Proof.
-  intros Hok Hl Hr. destruct (Nat.lt_ge_cases (length ws) (length v)) as [Hlt | Hge].
-  - apply span_iff; assumption.
-  - (* as many independent vectors as the dimension: lstsq reports no residual; they span everything *)
-    assert (Hle : forall w, In w ws -> (length w <= length v)%nat) by (intros w Hw; rewrite (Hl w Hw); lia).
-    pose proof (crank_le_dim ws (length v) Hle) as Hc.
-    assert (Hk : crank ws = length v) by lia.
-    pose proof (full_rank_square_spans ws v (length v) Hle (Nat.le_refl _) Hk) as Z.
-    unfold span_accept, span_core, lstsq_spec.
-    match goal with |- context [Nat.leb ?a ?b] =>
-      replace (Nat.leb a b) with true by (symmetry; apply Nat.leb_le; exact Hge) end.
-    rewrite orb_true_r.
-    destruct (norm_le tl 0 (norm2 v)) eqn:N.
-    + split; [discriminate | intros [H _]; discriminate].
-    + split; [|intros _; reflexivity].
-      intros _. split; [reflexivity|]. split; [exact Hok|].
-      destruct (cres2_attained_lincomb ws v) as [cs Hcs]. exists cs. rewrite Hcs, Z.
-      apply tol2_nonneg. apply norm2_nonneg.
-Qed.
-
 (* more vectors than the dimension are never independent *)
 Corollary independent_at_most_dim ws n : (forall w, In w ws -> (length w <= n)%nat) -> crank ws = length ws -> (length ws <= n)%nat.
 Proof. intros Hl Hr. rewrite <- Hr. apply crank_le_dim. exact Hl. Qed.
